@@ -20,7 +20,7 @@ Cases ==
                                                t \in {"i8", "byte", "i16", "i32", "i64"}, q \in One }
   \cup { [ctx |-> c, ty |-> "enum", items |-> q] : c \in {"enum-const", "enum-default", "enum-list"}, q \in One }
   \cup { [ctx |-> c, ty |-> "i32", items |-> << Item(TRUE, "1") >>] :
-           c \in {"dup-id", "dup-name", "dup-item", "dup-item-case", "self-const", "self-const-2", "self-service", "self-service-2", "dup-fn", "throws-typedef", "throws-struct", "throws-primitive", "oneway-result", "oneway-throws", "dup-param-id", "dup-param-name", "dup-throws-id", "union-required", "extends-struct", "extends-missing", "dup-type-name"} }
+           c \in {"dup-id", "dup-name", "dup-item", "dup-item-case", "self-const", "self-const-2", "self-const-struct", "self-const-struct-2", "self-const-list", "self-service", "self-service-2", "dup-fn", "throws-typedef", "throws-struct", "throws-primitive", "oneway-result", "oneway-throws", "dup-param-id", "dup-param-name", "dup-throws-id", "union-required", "extends-struct", "extends-missing", "dup-type-name"} }
 CSeq == SetToSeq(Cases)
 ASSUME ndJsonSerialize("cases.ndjson", [ i \in 1..Len(CSeq) |-> [id |-> ToString(i), c |-> CSeq[i]] ])
 =============================================================================
